@@ -56,7 +56,33 @@ func (c *Ctx) topLevelAssign(fi *load.FuncInfo, fn *gf.Fn, lhsTmpl, rhsTmpl stri
 			return true
 		}
 	}
-	return false
+	// not written as one top-level assignment (set through a small helper, say): the facts at every exit of the
+	// function still give the equality
+	_, an := c.Analysis(fi)
+	end := fi.Decl.Body.Rbrace
+	l, r := c.TryWantTerm(fn, end, lhsTmpl, args...), c.TryWantTerm(fn, end, rhsTmpl, args...)
+	if l == nil || r == nil {
+		return false
+	}
+	n, all := 0, true
+	check := func(st gf.State) {
+		if !st.Reachable() {
+			return
+		}
+		n++
+		if g, _ := st.Implies(gf.FEq(l, r)); !g {
+			all = false
+		}
+	}
+	ownNodes(fi.Decl.Body, func(x ast.Node) {
+		if ret, ok := x.(*ast.ReturnStmt); ok {
+			check(an.StateBefore(ret))
+		}
+	})
+	if ir := fn.ImplicitReturn(); ir != nil {
+		check(an.StateBefore(ir))
+	}
+	return n > 0 && all
 }
 
 func runC06(c *Ctx) {
@@ -206,6 +232,47 @@ func (c *Ctx) revisionLabelWriters() {
 			case *ast.CallExpr:
 				if id, ok := x.Fun.(*ast.Ident); ok && id.Name == "delete" && len(x.Args) == 2 && isRevKey(x.Args[1]) && podLabels(x.Args[0]) {
 					c.Bad("C06.5-revision-label-writers", fi.Obj.Name()+": delete of the revision label", x.Pos(), "a pod's revision label is removed")
+				}
+				// a label-setting helper handed the revision key: the call is the store
+				if h := gf.StaticCallee(info, x); h != nil && h != setRev.Obj {
+					if hfi := c.P.FuncInfoOf(h); hfi != nil && (hfi.Pkg.PkgPath == load.CtrlPkg || hfi.Pkg.PkgPath == load.K8sPkg) {
+						for k, a := range x.Args {
+							if !isRevKey(a) {
+								continue
+							}
+							// the k-th parameter indexes a pod's labels on the left of an assignment
+							var pk types.Object
+							i := 0
+							for _, pf := range hfi.Decl.Type.Params.List {
+								for _, pn := range pf.Names {
+									if i == k {
+										pk = hfi.Pkg.TypesInfo.ObjectOf(pn)
+									}
+									i++
+								}
+							}
+							stores := false
+							ast.Inspect(hfi.Decl.Body, func(m ast.Node) bool {
+								if as, ok := m.(*ast.AssignStmt); ok {
+									for _, l := range as.Lhs {
+										if ix, ok := ast.Unparen(l).(*ast.IndexExpr); ok {
+											if id, ok := ast.Unparen(ix.Index).(*ast.Ident); ok && pk != nil && hfi.Pkg.TypesInfo.ObjectOf(id) == pk {
+												if sel, ok := ast.Unparen(ix.X).(*ast.SelectorExpr); ok && sel.Sel.Name == "Labels" {
+													stores = true
+												}
+											}
+										}
+									}
+								}
+								return true
+							})
+							if stores {
+								nStore++
+								name := fmt.Sprintf("%s: %s", fi.Obj.Name(), clip(types.ExprString(x), 60))
+								c.Check(fi == setRev, "C06.5-revision-label-writers", name, x.Pos(), "the one writer of the pod revision label (through a label-setting helper)", "a pod's revision label is written outside setPodRevision")
+							}
+						}
+					}
 				}
 				if gf.StaticCallee(info, x) == setRev.Obj {
 					nCall++
@@ -506,12 +573,13 @@ func (c *Ctx) claimsBeforePod() {
 	// the claim loop
 	cfn, can := c.Analysis(cl)
 	cinfo := cl.Pkg.TypesInfo
-	var pvcCreate, pvcGet *ast.CallExpr
-	for _, s := range c.G.Sites {
-		if s.Fn == cl.Obj && s.Resource == "persistentvolumeclaims" {
+	// (the lookup and the create may sit in a per-claim helper the engine expands into the loop)
+	var pvcCreate, pvcGet, createTop *ast.CallExpr
+	for _, s := range c.sitesOf(cl) {
+		if s.Resource == "persistentvolumeclaims" {
 			switch s.Verb {
 			case "Create":
-				pvcCreate = s.Call
+				pvcCreate, createTop = s.Call, s.Top
 			case "Get":
 				pvcGet = s.Call
 			}
@@ -521,7 +589,7 @@ func (c *Ctx) claimsBeforePod() {
 		c.Bad("C06.2-claim-loop", "createPersistentVolumeClaims", cl.Decl.Pos(), "no claim lookup/create found")
 		return
 	}
-	loop, _ := innermostLoop(cl.Decl.Body, pvcCreate).(*ast.RangeStmt)
+	loop, _ := innermostLoop(cl.Decl.Body, createTop).(*ast.RangeStmt)
 	cps := cl.Decl.Type.Params.List
 	okRange := false
 	if loop != nil {
@@ -564,7 +632,7 @@ func (c *Ctx) claimsBeforePod() {
 			"an iteration can end without looking the claim up: its existence is assumed, and the pod is created although the claim may be gone")
 	}
 	// NotFound reaches Create; the created claim is the loop's claim
-	getStmt := stmtOf(cl.Decl.Body, pvcGet)
+	getStmt := stmtOf(c.hostOf(cl, pvcGet).Decl.Body, pvcGet)
 	if as, ok := getStmt.(*ast.AssignStmt); ok {
 		errID := as.Lhs[len(as.Lhs)-1]
 		nf := gf.FBool(gf.CallT("k8s.io/apimachinery/pkg/api/errors.IsNotFound", types.Typ[types.Bool], cfn.Term(errID)))
@@ -574,7 +642,16 @@ func (c *Ctx) claimsBeforePod() {
 		// any other lookup error is recorded
 	}
 	if v, ok := loop.Value.(*ast.Ident); ok {
-		c.Check(cfn.Term(pvcCreate.Args[1]).Key() == c.WantTerm(cfn, pvcCreate.Pos(), "&$1", v).Key() && cfn.Term(pvcGet.Args[0]).Key() == c.WantTerm(cfn, pvcGet.Pos(), "$1.Name", v).Key(),
+		wantPtr, wantName := c.WantTerm(cfn, loop.Body.Pos(), "&$1", v), c.WantTerm(cfn, loop.Body.Pos(), "$1.Name", v)
+		sameC := wantPtr != nil && cfn.Term(pvcCreate.Args[1]).Key() == wantPtr.Key()
+		if !sameC && wantPtr != nil {
+			sameC, _ = can.StateAtExpr(pvcCreate).Implies(gf.FEq(cfn.Term(pvcCreate.Args[1]), wantPtr))
+		}
+		sameG := wantName != nil && cfn.Term(pvcGet.Args[0]).Key() == wantName.Key()
+		if !sameG && wantName != nil {
+			sameG, _ = can.StateAtExpr(pvcGet).Implies(gf.FEq(cfn.Term(pvcGet.Args[0]), wantName))
+		}
+		c.Check(sameC && sameG,
 			"C06.2-claim-identity", "createPersistentVolumeClaims: Get/Create arguments", pvcCreate.Pos(), "looks up claim.Name and creates &claim of the iteration", "the looked-up and the created claim are not the iteration's claim")
 	}
 }
